@@ -1791,7 +1791,7 @@ func main() {
 		"non-trivial = at least 5 distinct op kinds, one call with a removed or foreign handle and one MoveBefore/MoveAfter " +
 		"with two distinct live handles; distinct by sha256 of the op lines"
 	if lines := r.ReplayLines(); lines != nil {
-		if replaySched(r, lines) {
+		if replaySched(r, lines) || replayReentrant(r, lines) {
 			r.Finish()
 
 			return
@@ -1847,6 +1847,7 @@ func main() {
 		runCase(r, sub, genCase(rng, 40, mode))
 	}
 	r.Extra["deadlocks"] = deadlocks
+	reentrantTraversals(r)
 	concurrentSmoke(r)
 	readerSnapshots(r)
 	concurrentHistories(r)
